@@ -89,6 +89,8 @@ class Obj:
                 node = source.select(src[0], dotted) if dotted else None
                 if isinstance(node, (ast.FunctionDef, ast.AsyncFunctionDef)) and not node.decorator_list:
                     return Closure(node, 0, name, bound_self=self)
+                if isinstance(node, (ast.FunctionDef, ast.AsyncFunctionDef)) and [ast.unparse(d) for d in node.decorator_list] == ['staticmethod']:
+                    return Closure(node, 0, name)            # a static method: the real function, nothing bound
             if getattr(self, '_lenient', False):
                 return Unknown(f'{self._name}.{name}', self)
             raise Unsupported(f'{self._name} has no modelled attribute {name!r}')
